@@ -647,7 +647,7 @@ theorem TCInv_closed : Closed TCInv where
   invFlag := fun s b h => ⟨CInv_closed.invFlag s b h.1, TInv_of_tview h.2 rfl⟩
   erase := fun s i h hv he => ⟨CInv_closed.erase s i h.1 hv he, TInv_of_tview (TInv_allEmpty h.2) rfl⟩
   reap := fun s sid h ha hr => ⟨CInv_closed.reap s sid h.1 ha hr, TInv_of_tview h.2 rfl⟩
-  flagRemoval := fun s f g h => ⟨CInv_closed.flagRemoval s f g h.1, TInv_of_tview h.2 rfl⟩
+  flagRemoval := fun s0 s f g h0 h he hf => ⟨CInv_closed.flagRemoval s0 s f g h0.1 h.1 he hf, TInv_of_tview h.2 rfl⟩
   flushSinks := fun s h => ⟨CInv_closed.flushSinks s h.1, TInv_of_tview h.2 (tview_of_stripOut (flushSinks_strip s))⟩
   readPrep := fun s i h => ⟨CInv_closed.readPrep s i h.1, TInv_readPrepSt h.2 i⟩
   commit := fun s i h => ⟨CInv_closed.commit s i h.1, TInv_commitSt h.2 i⟩
